@@ -15,15 +15,15 @@ LEVEL_TEXT = ('every state of $topdir/.Trash (sticky dir, non-sticky dir, symlin
               'a populated .Trash/$uid is presented to each of the five commands; insecure => the subtree is byte-identical afterwards and '
               'none of its entries is listed, offered, restored or purged; secure control => it IS used (no vacuous pass)')
 LEVEL_NOTE = 'trusted: shim mount table / psutil substitute; ownership checks of .Trash/$uid itself are not part of the property'
-RULE = ('.Trash state (8, incl. mode 2777 and 0700) x command (put, list, restore+reply, empty, empty 0, rm *, rm exact, list --all-users and empty --all-users with three accounts in /etc/passwd, list --size, list --files, put with .Trash-uid blocked by a regular file) x volumes (v1 only; v1 insecure + v2 secure) x uid '
+RULE = ('.Trash state (8, incl. mode 2777 and 0700) x command (put, list, restore+reply, empty, empty 0, rm *, rm exact, list --all-users and empty --all-users with three accounts in /etc/passwd, list --size, list --files, put with .Trash-uid blocked by a regular file) x volumes (v1 only; v1 insecure + v2 secure; a secure v0 listed before v1) x uid '
         '(0, 1000); non-trivial = the command examined the volume (stat of .Trash seen in the trace); distinct = outcome class x state x command')
 STATES = ['sticky', 'nonsticky', 'nonsticky-setgid', 'nonsticky-private', 'symlink-sticky', 'symlink-nonsticky', 'file', 'absent']
 CMDS = ['put', 'list', 'restore', 'empty', 'empty0', 'rm-star', 'rm-exact', 'put-then-insecure', 'list-all-users', 'empty-all-users', 'list-size', 'list-files', 'put-alt-blocked']
-VOLS = ['v1', 'v1+v2', 'v1-sticky-topdir']
+VOLS = ['v1', 'v1+v2', 'v1-sticky-topdir', 'v0+v1']
 
 
 def dimensions(tier):
-    return {'state': len(STATES), 'command': len(CMDS), 'volumes': 3, 'uid': 2}
+    return {'state': len(STATES), 'command': len(CMDS), 'volumes': len(VOLS), 'uid': 2}
 
 
 def cases(tier):
@@ -43,7 +43,7 @@ def populate(W, base, uid, vol, tag):
 
 def run_case(c):
     uid = c['uid']
-    mounts = ['/', '/mnt/v1'] + (['/mnt/v2'] if c['vols'] == 'v1+v2' else [])
+    mounts = ['/'] + (['/mnt/v0'] if c['vols'] == 'v0+v1' else []) + ['/mnt/v1'] + (['/mnt/v2'] if c['vols'] == 'v1+v2' else [])
     W = scen.base_world(mounts=mounts, uid=uid, cwd='/mnt/v1/w')
     W.dir('/mnt/v1/w').file('/mnt/v1/w/new', 'to be trashed\n')
     if c['vols'] == 'v1-sticky-topdir':
@@ -73,6 +73,10 @@ def run_case(c):
         W.file('/etc/passwd', 'ghost:x:4242:4242::/home/ghost:/bin/sh\nme:x:%d:%d::/home/u:/bin/sh\nbob:x:%d:%d::/home/bob:/bin/sh\n' % (uid, uid, OTHER, OTHER))
         if phys:
             populate(W, phys, OTHER, '/mnt/v1', 'v1b')
+    if c['vols'] == 'v0+v1':
+        # a volume with a perfectly good sticky .Trash/$uid comes first in the mount table
+        W.dir('/mnt/v0/.Trash', mode=0o1777)
+        populate(W, '/mnt/v0/.Trash', uid, '/mnt/v0', 'v0')
     if c['vols'] == 'v1+v2':
         W.dir('/mnt/v2/.Trash', mode=0o1777)
         td2 = populate(W, '/mnt/v2/.Trash', uid, '/mnt/v2', 'v2')
